@@ -72,7 +72,10 @@ def hostile_selectors(rng, model: sites.SiteModel, full: bool, n: int, outside_a
                 for payload in (b"../../outside-secret.txt", b"../outside-secret.txt", b"x/../../../outside-secret.txt", b"..", b"../../SIBLING/secret.txt",
                                 b"pages/../../../outside-secret.txt", b"..\\..\\outside-secret.txt", b".//..//outside-secret.txt"):
                     out.append((o.selector + sep + payload, False, "climbing-virtual-argument"))
-    outside_targets = [b"etc/passwd", b"outside-secret.txt", b"SIBLING/secret.txt", b"evil.pyg", b"outside.mbox"]
+    outside_targets = [b"etc/passwd", b"outside-secret.txt", b"SIBLING/secret.txt", b"evil.pyg", b"outside.mbox",
+                       # names that handlers claim by their suffix (decompression, archives, templates, maps)
+                       b"outside-secret.txt.gz", b"SIBLING/secret.txt.gz", b"outside.zip", b"outside.zip/inner.txt", b"outside.html.tal",
+                       b"outside.gophermap", b"outside-secret.txt.bz2"]
     for _ in range(n):
         o = rng.choice(objs)
         k = rng.random()
@@ -135,6 +138,13 @@ def outside_world(sc: Scratch, root: str, model: sites.SiteModel, which: str) ->
         t.materialize(sib)
     with open(os.path.join(parent, "outside-secret.txt"), "wb") as fp:
         fp.write(marker + b" parent secret\n" * (3 if which == "B" else 700))
+    for nm, data in (("outside-secret.txt.gz", trees.gz(marker + b" gz secret\n")), ("outside-secret.txt.bz2", trees.bz(marker + b" bz2 secret\n")),
+                     ("SIBLING/secret.txt.gz", trees.gz(marker + b" sibling gz secret\n")),
+                     ("outside.zip", Tree().file("inner.txt", marker + b" zipped secret\n").to_zip()),
+                     ("outside.html.tal", b"<html><body><p tal:content=\"string:" + marker + b" template\">x</p></body></html>"),
+                     ("outside.gophermap", b"i" + marker + b" map\tfake\t(NULL)\t0\n0x\t/x\n")):
+        with open(os.path.join(parent, nm), "wb") as fp:
+            fp.write(data)
     with open(os.path.join(parent, "outside-secret.txt.abstract"), "wb") as fp:
         fp.write(marker + b" abstract of the parent secret\n")
     with open(os.path.join(parent, "SIBLING", ".abstract"), "wb") as fp:
